@@ -241,10 +241,45 @@ def run_tlc(family, module, cfg, timeout=900, workers=None, env_extra=None, extr
         shutil.rmtree(scratch, ignore_errors=True)
 
 
+def run_apalache(family, module, cinit, init, inv, length, timeout=600):
+    """apalache-mc check --cinit --init --inv --length on spec/<family>/<module>.tla in a scratch copy
+    (inductive-invariant steps: unbounded in the length of the execution). rc 0 = no error, 12 = the
+    invariant is violated; anything else is a tool problem."""
+    src = os.path.join(SPEC, family)
+    scratch = tempfile.mkdtemp(prefix="vk_apa_")
+    res = TLCResult()
+    res.files = {}
+    try:
+        shutil.copy(os.path.join(src, module + ".tla"), scratch)
+        cmd = ["timeout", str(timeout), "apalache-mc", "check", "--cinit=" + cinit, "--init=" + init, "--inv=" + inv,
+               "--length=" + str(length), "--out-dir=" + os.path.join(scratch, "out"), module + ".tla"]
+        t0 = time.time()
+        p = subprocess.run(cmd, cwd=scratch, stdout=subprocess.PIPE, stderr=subprocess.STDOUT, text=True)
+        res.wall = time.time() - t0
+        res.rc, res.out = p.returncode, p.stdout
+        res.ok = p.returncode == 0 and "EXITCODE: OK" in p.stdout
+        if p.returncode == 12:
+            res.violated = inv
+        elif not res.ok:
+            raise MachineryError("apalache-mc did not decide %s/%s %s (exit %s):\n%s" % (family, module, inv, p.returncode, p.stdout[-2000:]))
+        return res
+    finally:
+        shutil.rmtree(scratch, ignore_errors=True)
+
+
 def model_check(family, module, cfg, timeout=900, workers=None, expect_ok=True, **kw):
     """Exhaustive TLC run whose success is a precondition of the check (design-level result).
     A violated invariant on the *specification* is a machinery/spec problem (exit 2): verdicts about
-    the repository only ever come from real-code observations."""
+    the repository only ever come from real-code observations.
+    cfg "apalache:<cinit>:<init>:<inv>:<length>" runs one step of an inductive-invariant argument with
+    Apalache instead."""
+    if cfg.startswith("apalache:"):
+        _, cinit, init, inv, length = cfg.split(":")
+        r = run_apalache(family, module, cinit, init, inv, int(length), timeout=timeout)
+        log("[vk] Apalache %s/%s %s: rc=%s %.1fs" % (family, module, cfg, r.rc, r.wall))
+        if expect_ok and not r.ok:
+            raise MachineryError("Apalache reported a problem on the specification %s/%s (%s)\n%s" % (family, module, cfg, r.out[-3000:]))
+        return r
     r = run_tlc(family, module, cfg, timeout=timeout, workers=workers, **kw)
     log("[vk] TLC %s/%s %s: rc=%s generated=%d distinct=%d depth=%d %.1fs" % (
         family, module, cfg, r.rc, r.generated, r.distinct, r.depth, r.wall))
@@ -272,10 +307,10 @@ def _validate_one(family, module, cfg, trace_path, timeout, extra_env):
 
 
 SHARD_LINES = 12000     # a trace longer than twice this is validated in shards, in parallel
-MAX_SHARDS = 12
+MAX_SHARDS = 14
 
 
-def validate_trace(family, module, cfg, trace_path, timeout=1800, extra_env=None):
+def validate_trace(family, module, cfg, trace_path, timeout=3000, extra_env=None):
     """Trace validation. The trace specs are deterministic monitors: they consume the ndjson file
     line by line (variable `l`), keep the *set* of abstract states compatible with the observations so
     far and, when that set becomes empty, append the case id to `failed` and skip to the next `reset`
